@@ -291,6 +291,7 @@ type Op struct {
 	Tok       PTok
 	Allowed   bool
 	HasHeader bool
+	Hint      string // token_type_hint sent with introspect / revoke (not modelled: must not matter)
 	// ciba
 	InitOK  bool
 	Sub     string
